@@ -1070,3 +1070,10 @@ M("C18-exponent-plus-sign-not-consumed", "C18", "src/cppparser/cppPreprocessor.c
 M("C18-benign-exponent-sign-order", "C18", "src/cppparser/cppPreprocessor.cxx",
   "      if (c == '-' || c == '+') {\n        num += get();", "      if ('+' == c || '-' == c) {\n        num += get();",
   benign=True)
+
+M("C04-public-typedef-hides-protected-type", "C04", "src/interrogate/typeManager.cxx",
+  "  case CPPDeclaration::ST_typedef:\n    return involves_protected(type->as_typedef_type()->_type);", "  case CPPDeclaration::ST_typedef:\n    if (type->_vis <= V_public) {\n      return false;\n    }\n    return involves_protected(type->as_typedef_type()->_type);",
+  expect="R04.9|involves_protected|ST_typedef")
+M("C04-benign-typedef-arm-local", "C04", "src/interrogate/typeManager.cxx",
+  "  case CPPDeclaration::ST_typedef:\n    return involves_protected(type->as_typedef_type()->_type);", "  case CPPDeclaration::ST_typedef: {\n    CPPType *aliased = type->as_typedef_type()->_type;\n    return involves_protected(aliased);\n  }",
+  benign=True)
